@@ -85,18 +85,45 @@ impl<T: Term> Term for IsoTerm<T> {
     // beyond the benefit of a hypothetical custom impl of these methods in T.
 }
 
+/// [`Term::eq`], except that all blank nodes are considered equal,
+/// including those nested in quoted triples.
+fn iso_eq<T1: Term, T2: Term>(t1: T1, t2: T2) -> bool {
+    use TermKind::{BlankNode, Triple};
+    match (t1.kind(), t2.kind()) {
+        (BlankNode, BlankNode) => true,
+        (Triple, Triple) => {
+            let spo1 = t1.triple().unwrap();
+            let spo2 = t2.triple().unwrap();
+            iso_eq(spo1[0], spo2[0]) && iso_eq(spo1[1], spo2[1]) && iso_eq(spo1[2], spo2[2])
+        }
+        _ => Term::eq(&t1, t2),
+    }
+}
+
+/// [`Term::cmp`], except that all blank nodes are considered equal,
+/// including those nested in quoted triples.
+fn iso_cmp<T1: Term, T2: Term>(t1: T1, t2: T2) -> Ordering {
+    use TermKind::{BlankNode, Triple};
+    match (t1.kind(), t2.kind()) {
+        (BlankNode, BlankNode) => Ordering::Equal,
+        (Triple, Triple) => {
+            let spo1 = t1.triple().unwrap();
+            let spo2 = t2.triple().unwrap();
+            iso_cmp(spo1[0], spo2[0])
+                .then_with(|| iso_cmp(spo1[1], spo2[1]))
+                .then_with(|| iso_cmp(spo1[2], spo2[2]))
+        }
+        _ => Term::cmp(&t1, t2),
+    }
+}
+
 impl<T1, T2> PartialEq<IsoTerm<T1>> for IsoTerm<T2>
 where
     T1: Term,
     T2: Term,
 {
     fn eq(&self, other: &IsoTerm<T1>) -> bool {
-        use TermKind::BlankNode;
-        if self.kind() == BlankNode && other.kind() == BlankNode {
-            true
-        } else {
-            Term::eq(&self.0, other.0.borrow_term())
-        }
+        iso_eq(self.0.borrow_term(), other.0.borrow_term())
     }
 }
 
@@ -108,23 +135,13 @@ where
     T2: Term,
 {
     fn partial_cmp(&self, other: &IsoTerm<T1>) -> Option<Ordering> {
-        use TermKind::BlankNode;
-        if self.kind() == BlankNode && other.kind() == BlankNode {
-            Some(Ordering::Equal)
-        } else {
-            Some(Term::cmp(&self.0, other.0.borrow_term()))
-        }
+        Some(iso_cmp(self.0.borrow_term(), other.0.borrow_term()))
     }
 }
 
 impl<T: Term> Ord for IsoTerm<T> {
     fn cmp(&self, other: &Self) -> Ordering {
-        use TermKind::BlankNode;
-        if self.kind() == BlankNode && other.kind() == BlankNode {
-            Ordering::Equal
-        } else {
-            Term::cmp(&self.0, other.0.borrow_term())
-        }
+        iso_cmp(self.0.borrow_term(), other.0.borrow_term())
     }
 }
 
